@@ -139,3 +139,51 @@ fn c08_val_eq_hash_scalars() {
         ka += 1;
     }
 }
+
+fn no_dec(_n: &str) -> crate::Num {
+    panic!("no decimal literal is constructed in this harness: the Dec arms must be unreachable")
+}
+fn to_f64_model(b: &BigInt) -> Option<f64> {
+    b.to_i64().map(|v| v as f64)
+}
+
+//@ tier: attempt
+//@ funcs: <Val as Ord>::cmp (Num, Num arm), <Val as PartialEq>::eq (Num, Num arm), <Val as Hash>::hash (Num arm)
+//@ bounds: numbers inside `Val`: Int(i) with |i| <= 2^53 and non-NaN Float(f), all four representation pairs (case-split), payloads symbolic
+//@ assume: Num::from_dec_str replaced by a panicking stub (no decimal literal exists here: its arms are shown unreachable) and <BigInt as ToPrimitive>::to_f64 by the model `to_i64() as f64` -- inside a `Val` the solver cannot fold the niche-encoded `Num` tag and would otherwise execute decimal parsing and big-integer conversion
+//@ asserts: on numbers, comparison, equality and hashing of VALUES are exactly those of the numbers: Val::cmp == Num::cmp, Val::eq == Num::eq, and equal values feed identical bytes to the hasher
+#[kani::proof]
+#[kani::unwind(50)]
+#[kani::stub(crate::num::Num::from_dec_str, no_dec)]
+#[kani::stub(<BigInt as num_traits::ToPrimitive>::to_f64, to_f64_model)]
+fn c08_val_numbers_delegate_to_num() {
+    let mut fa = 0;
+    while fa < 2 {
+        let mut fb = 0;
+        while fb < 2 {
+            let mk = |float: u8| {
+                if float == 1 {
+                    let f: f64 = kani::any();
+                    kani::assume(!f.is_nan());
+                    Num::Float(f)
+                } else {
+                    let i: isize = kani::any();
+                    kani::assume(-(1isize << 53) <= i && i <= 1isize << 53);
+                    Num::Int(i)
+                }
+            };
+            let (x, y) = (mk(fa), mk(fb));
+            let (a, b) = (Val::Num(x.clone()), Val::Num(y.clone()));
+            assert!(a.cmp(&b) == x.cmp(&y));
+            assert!((a == b) == (x == y));
+            if a == b {
+                assert!(stream(&a).same(&stream(&b)));
+            }
+            kani::cover!(fa == 0 && fb == 1 && a == b);
+            kani::cover!(fa == 1 && fb == 1 && a.cmp(&b) == Less);
+            core::mem::forget((a, b, x, y));
+            fb += 1;
+        }
+        fa += 1;
+    }
+}
